@@ -83,7 +83,11 @@ pub fn run(out: &mut Out, thorough: bool, seed: u64, _extra: &[String]) {
                                 if scheme == SchemeType::CKKS {
                                     out.case(&format!("ckks_switch drop {} {} {} {} | {}", src_ct.scale().to_bits(), res.scale().to_bits(), tgt - src, s.ct_case(&src_ct), s.ct_case(res)), &cls, || "ok".to_string());
                                 } else {
-                                    out.case(&format!("prog {} 40 {}", s.ct_case(res), fl(&trim(&msg))), &cls, || s.dec_str(res));
+                                    // the exact-decryption claim is made only where the message can survive: the source budget, and the room left on the
+                                    // target level (log2 Q' - log2 t - size*log2 N - 8: rounding noise of size-`size` switching involves s^(size-1))
+                                    let tgt_bits: f64 = s.level_qs(&pid).iter().map(|&q| (q as f64).log2()).sum();
+                                    let pred = (crate::c02::lib_budget(&s, &ct0).min(tgt_bits - (t as f64).log2() - (size as f64) * (n as f64).log2() - 8.0) - 2.0).floor() as i64;
+                                    out.case(&format!("prog {} {} {}", s.ct_case(res), pred, fl(&trim(&msg))), &format!("{}-{}", cls, if pred >= 4 { "claimed" } else { "noclaim" }), || s.dec_str(res));
                                 }
                             }
                         }
